@@ -240,7 +240,7 @@ def check_node(sh, spec, v, prog, rng):
             sv.__dict__.update(ns)
             shapes.append(("sibling-plain-object", sv))
             # an instance of the target class itself / of a subclass of it, holding the not-yet-converted wire values
-            if spec.info.get("flavour") not in ("typeddict", "typeddict_partial", "typeddict_notrequired") and inspect.isclass(T):
+            if not str(spec.info.get("flavour")).startswith("typeddict") and inspect.isclass(T):
                 try:
                     own = T(**ns)
                     Sub = type("Sub_" + spec.info["name"], (T,), {})
